@@ -58,8 +58,8 @@ clock_gettime(clockid_t id, struct timespec *tp)
 	return 0;
 }
 
-ssize_t
-write(int fd, const void *buf, size_t n)
+static size_t
+maybe_short(int fd, size_t n)
 {
 	size_t len = n;
 	if (rthread.ready || rthread.evbuf != NULL) {
@@ -73,7 +73,34 @@ write(int fd, const void *buf, size_t n)
 			stream_writes++;
 		}
 	}
-	return syscall(SYS_write, fd, buf, len);
+	return len;
+}
+
+ssize_t
+write(int fd, const void *buf, size_t n)
+{
+	return syscall(SYS_write, fd, buf, maybe_short(fd, n));
+}
+
+/* the same for a vectored write, should the runtime ever use one */
+#include <sys/uio.h>
+ssize_t
+writev(int fd, const struct iovec *iov, int cnt)
+{
+	size_t tot = 0;
+	for (int i = 0; i < cnt; i++)
+		tot += iov[i].iov_len;
+	size_t left = maybe_short(fd, tot);
+	struct iovec v[16];
+	int m = 0;
+	for (int i = 0; i < cnt && left > 0 && m < 16; i++) {
+		v[m] = iov[i];
+		if (v[m].iov_len > left)
+			v[m].iov_len = left;
+		left -= v[m].iov_len;
+		m++;
+	}
+	return syscall(SYS_writev, fd, v, m);
 }
 
 void
